@@ -67,8 +67,8 @@ pub fn guard<T>(f: impl FnOnce() -> T) -> Result<T, PanicInfo> {
                 Some(i) if loc.contains("/repo/") || !loc.starts_with('/') => loc[i..].to_string(),
                 _ => {
                     // keep the crate name for panics inside dependencies or std
-                    let parts: Vec<&str> = loc.rsplitn(4, '/').collect();
-                    parts.into_iter().rev().collect::<Vec<_>>().join("/")
+                    let comps: Vec<&str> = loc.split('/').collect();
+                    comps[comps.len().saturating_sub(4)..].join("/")
                 }
             };
             Err(PanicInfo { loc, msg })
@@ -89,6 +89,7 @@ pub struct Stats {
     pub steps: u64,
     pub evaluations: u64,
     pub max: BTreeMap<String, u64>,
+    pub min: BTreeMap<String, u64>,
 }
 
 impl Stats {
@@ -115,6 +116,12 @@ impl Stats {
             *e = v;
         }
     }
+    pub fn mini(&mut self, key: &str, v: u64) {
+        let e = self.min.entry(key.to_string()).or_insert(u64::MAX);
+        if v < *e {
+            *e = v;
+        }
+    }
     pub fn sample(&mut self, cap: usize, f: impl FnOnce() -> J) {
         if self.samples.len() < cap {
             self.samples.push(f());
@@ -127,6 +134,12 @@ impl Stats {
         for (k, v) in o.max {
             let e = self.max.entry(k).or_insert(0);
             if v > *e {
+                *e = v;
+            }
+        }
+        for (k, v) in o.min {
+            let e = self.min.entry(k).or_insert(u64::MAX);
+            if v < *e {
                 *e = v;
             }
         }
@@ -640,6 +653,8 @@ fn handle_violation<S: Scenario>(
     v: Viol,
     sub: Option<S::Case>,
 ) {
+    let key = s.known_key(&v.class);
+    let listed = known_match(known, s.id(), &key);
     {
         let mut seen = shared.seen.lock().unwrap();
         let n = seen.entry(v.class.clone()).or_insert(0);
@@ -647,12 +662,17 @@ fn handle_violation<S: Scenario>(
         if *n > 1 {
             return;
         }
-        if seen.len() > o.max_reports {
+        // the cap bounds minimisation work; listed findings cost nothing and are always printed
+        let unlisted = seen.keys().filter(|c| known_match(known, s.id(), &s.known_key(c)).is_none()).count();
+        if listed.is_none() && unlisted > o.max_reports {
+            shared.reports.lock().unwrap().push(Report {
+                line: format!("VIOLATION property={} replay=<not written: more than {} distinct violation classes> class={}", s.id(), o.max_reports, v.class),
+                known: false,
+            });
             return;
         }
     }
-    let key = s.known_key(&v.class);
-    if let Some(k) = known_match(known, s.id(), &key) {
+    if let Some(k) = listed {
         shared.reports.lock().unwrap().push(Report {
             line: format!("KNOWN-FINDING: property={} {} [{}]", s.id(), k.what, k.key),
             known: true,
